@@ -46,6 +46,9 @@ def gen_file(rng, tier, allow_empty=True):
     if n == 0 and not allow_empty:
         n = 1
     name = "".join(rng.choice(NAME_CHARS) for _ in range(rng.choice([0, 1, 3, 7, 8, 8, 9, 12, rng.randrange(13)])))
+    if rng.random() < 0.08:
+        # names as other tools leave them on a tape: padded with NULs, or with a NUL inside (the reader returns the raw 8 bytes)
+        name = rng.choice([name[:rng.randrange(1, 6)].ljust(8, "\0"), "A\0B", "\0" * 8, name[:3] + "\0" + name[3:7]])
     # addresses include the block markers themselves ($55 $3C ...): the header is data too
     marks = [0x553C, 0x3C55, 0x5555, 0x3C00, 0x5501, 0x55FF, 0x0055, 0x5500, 0x3C3C, 0x013C, 0xFF55]
     addr = lambda: rng.choice([0, 1, 255, 256, 0x0E00, 0x7FFF, 0x8000, 0xFFFF, rng.randrange(65536), rng.choice(marks), rng.choice(marks)])
